@@ -14,3 +14,25 @@ Proof. exact i_cons_b_match_against. Qed.
 
 Print Assumptions Tie_interface_checker_decides.
 Print Assumptions Tie_interface_checker_accepts_model.
+
+(* The judges applied to the implementation's observations are the statements themselves. *)
+From PL Require Import Spec.Judges Proofs.JudgeProofs Model.Level.
+From Coq Require Import Sorted.
+
+Theorem Tie_judge_agg : forall l, agg_b (cvis l) (chid l) (ccnt l) (resting l) = true <-> Agg l.
+Proof. exact agg_b_level. Qed.
+
+Theorem Tie_judge_listing : forall l, listing_ok_b l = true <-> NoDup (ids l) /\ Sorted ts_le l.
+Proof. exact listing_ok_b_iff. Qed.
+
+Theorem Tie_judge_accounting : forall p qty taker before r,
+  accounting_b p qty taker before r = true <->
+  sum_qty (r_txs r) + r_remaining r = qty /\
+  (r_complete r = true <-> r_remaining r = 0) /\
+  Forall (fun t => 0 < tx_qty t /\ tx_price t = p /\ tx_taker t = taker /\
+                   exists o, lookup (tx_maker t) before = Some o /\ tx_side t = opposite (side_of o)) (r_txs r).
+Proof. exact accounting_b_iff. Qed.
+
+Print Assumptions Tie_judge_agg.
+Print Assumptions Tie_judge_listing.
+Print Assumptions Tie_judge_accounting.
